@@ -110,11 +110,14 @@ pub fn run(ctx: &Ctx, rep: &mut Report) {
         let n_threads = if miri { 2 + (idx % 2) as usize } else { [2usize, 4, 8, 16][(idx % 4) as usize] };
         // shared pool of texts (on purpose: the same lazily initialised tables are first touched by several threads at once)
         let n_texts = if miri { 6 } else { 60 };
-        let texts: Vec<String> = (0..n_texts).map(|i| if i % 5 == 0 { format!("{}ア1,000カカa1", textgen::text_from_keys(&mut rng, &keys, 3)) } else { textgen::text_from_keys(&mut rng, &keys, 8) }).collect();
+        let mut texts: Vec<String> = (0..n_texts).map(|i| if i % 5 == 0 { format!("{}ア1,000カカa1", textgen::text_from_keys(&mut rng, &keys, 3)) } else { textgen::text_from_keys(&mut rng, &keys, 8) }).collect();
+        // text 0 exercises every input-text plugin at once: all threads analyse it first, so whatever is
+        // initialised on first use is initialised under contention
+        texts[0] = format!("東京(とうきょう)ＡＢスーーーパー㍿京（キョウ）{}", texts[0]);
         // per-thread streams: (text, mode, subset)
         let subsets = [0x3ffu32, 0x3ff, 0x001, 0x00d, 0x02d, 0x3c0];
         let streams: Vec<Vec<Key>> = (0..n_threads)
-            .map(|_| (0..per_thread).map(|_| (rng.below(texts.len()), rng.below(3), *rng.pick(&subsets))).collect())
+            .map(|_| (0..per_thread).map(|k| (if k < 2 { 0 } else { rng.below(texts.len()) }, rng.below(3), *rng.pick(&subsets))).collect())
             .collect();
         // a twin load of the same bytes that is never used concurrently: reference for the digest and
         // for the single-threaded baseline (the shared dictionary is not touched before the threads start)
